@@ -62,3 +62,25 @@ def _kwflag(pid, v):
     facts = (v["case"].get("facts") or {})
     return pid == "C08" and v["clause"] == "project-neq" and v["outcome"] == "ok" and \
         facts.get("kwflag_default_masks_call_dialect") is True
+
+
+@scope("F-CLASS-NOT-MODULE-ATTRIBUTE")
+def _unbound(pid, v):
+    f = (v["case"].get("facts") or {})
+    if pid != "C17" or f.get("site") != "unbound":
+        return False
+    co = (v["clause"], v["outcome"])
+    if co in (("build-failed", "AttributeError"), ("library-made-error", "AttributeError"), ("name-unresolved", "static")):
+        return True
+    if f.get("shape") in ("union_int", "union_first") and co in (("not-the-annotated-class", "type"), ("roundtrip-raised", "ValueError")):
+        return True
+    return False
+
+
+@scope("F-TWIN-QUALIFIED-NAME")
+def _twin(pid, v):
+    f = (v["case"].get("facts") or {})
+    if pid != "C17" or f.get("site") != "twin":
+        return False
+    return (v["clause"], v["outcome"]) in (("not-the-annotated-class", "twin"), ("roundtrip-raised", "InvalidFieldValue"),
+                                           ("roundtrip-raised", "ValueError"))
